@@ -1,5 +1,5 @@
 """C14 - downstream termination cancels upstream without waiting for it (DESIGN 6/C14)."""
-import vlib, parts_multi, parts_pipeline as pp, common
+import vlib, parts_kernel, parts_multi, parts_pipeline as pp, common
 
 PID = 'C14'
 
@@ -13,6 +13,9 @@ def main(argv):
     parts_multi.run(rep, PID, rep.tier == 'thorough')
     parts_multi.run_ho(rep, PID, rep.tier == 'thorough')
     parts_multi.run_single(rep, PID, rep.tier == 'thorough')
+    # operator-level concurrent scenarios: sources whose teardown waits for their producer (a clean shutdown); when the stream has ended and every
+    # thread is joined no source is left subscribed, and no teardown waits for a producer that is stuck inside the pipeline
+    parts_kernel.trace_part(rep, PID, 400 if rep.tier == 'thorough' else 250, [rep.seed * 100 + 50 + i for i in range(4 if rep.tier == 'thorough' else 1)], extra=['-ops'], label='drive-ops')
     rep.cov['rule'] = common.PIPE_RULE + '; C14 looks at the source teardown counter in the very step in which an operator terminated the stream on a value (no further source event)'
     rep.cov['exhaustive'] = True
     rep.assumptions += ['bounded: scripts <= 3-4 notifications; chains <= 2 operators']
@@ -21,6 +24,8 @@ def main(argv):
 
 def replay(path):
     vlib.build_harness()
+    if path.endswith('.ndjson'):
+        return parts_kernel.replay_trace(PID, path)
     import json
     if json.load(open(path))['replay'].get('module') in ('MultiGen', 'HOGen'):
         return parts_multi.replay_case(PID, path)
